@@ -93,10 +93,20 @@ impl Members {
         // Because a newly inserted member would always have the same
         // timestamp this code doesn't run if we just inserted.
         if actor.ts().to_duration() > member.ts.to_duration() {
+            let old_addr = member.addr;
             member.addr = actor.addr();
             member.ts = actor.ts();
             member.cluster_id = actor.cluster_id();
+            // the ring was derived from the previous address' round-trip samples
+            member.ring = None;
             ret = MemberAddedResult::Updated;
+
+            // keep the address index in step with the member's current address
+            if self.by_addr.get(&old_addr) == Some(&actor_id) {
+                self.by_addr.remove(&old_addr);
+            }
+            self.by_addr.insert(actor.addr(), actor_id);
+            self.recalculate_rings(actor.addr());
         }
 
         // If we just inserted, add the actor to the by_addr set and
